@@ -256,7 +256,7 @@ def classify(res, text, registry):
 
     vir_error = bool(res['out'] and res['out'].get('verification-results', {}).get('encountered-vir-error'))
     if res['out'] is None:
-        tool.append('verus produced no JSON result (rc=%s): %s' % (res['rc'], ' | '.join(res['raw'][:5])))
+        tool.append({'msg': 'verus produced no JSON result (rc=%s): %s' % (res['rc'], ' | '.join(res['raw'][:5])), 'line': 0, 'fn': None, 'compile': False})
     for d in res['diags']:
         if d.get('level') != 'error':
             continue
@@ -274,7 +274,7 @@ def classify(res, text, registry):
             is_tool = True   # only recognised proof-obligation failures can ever become violations
         if is_tool:
             line = spans[0]['line_start'] if spans else 0
-            tool.append('%s (line %d, fn %s)' % (msg, line, fn_at(line)))
+            tool.append({'msg': msg, 'line': line, 'fn': fn_at(line), 'compile': bool(code) or not any(re.search(p_, msg) for p_ in TOOL_LIMIT_PATTERNS)})
             continue
         prim = [s for s in spans if s.get('is_primary')] or spans
         line = prim[0]['line_start'] if prim else 0
